@@ -68,7 +68,10 @@ Section Semantics.
   Variable G : list (name * Q).         (* module float constants *)
 
   Definition lookup (rho : env) (x : name) : option Q :=
-    match assoc x rho with Some v => Some v | None => assoc x G end.
+    match assoc x rho with
+    | Some v => Some v
+    | None => match assoc x G with Some q => Some (Qred q) | None => None end
+    end.
 
   Fixpoint eval (rho : env) (e : expr) : option Q :=
     match e with
